@@ -170,6 +170,10 @@ class FaultPlan(object):
                 continue
             if r.get("group") is not None and r["group"] != ev["req"].get("group"):
                 continue
+            if r.get("corr") is not None and ev["corr"] not in r["corr"]:
+                continue
+            if r.get("owner") is not None and r["owner"] != ev.get("owner"):
+                continue
             if r.get("until") is not None and ev["t"] >= r["until"]:
                 continue
             if r.get("after") is not None and ev["t"] < r["after"]:
@@ -281,6 +285,7 @@ class Cluster(object):
         self.auto_create = False
         self.rebalance_timeout_is_session = True
         self.on_event = []  # callbacks(ev) after an event was handled
+        self.ghost_pred = None  # differential re-runs: fn(ev) -> True to draw but not deliver the reply
 
     # -- topology ----------------------------------------------------------
     def add_broker(self, node_id, host=None, port=None):
@@ -394,7 +399,9 @@ class Cluster(object):
                     ev["replied"] = "sent"
                     ev["reply_t"] = self.clock.seconds()
                     ev["reply_len"] = len(data)
-                    bconn.conn.server_send(R.frame(data), label="net.s2c." + ev["api"])
+                    ghost = self.ghost_pred is not None and self.ghost_pred(ev)
+                    ev["ghost"] = ghost
+                    bconn.conn.server_send(R.frame(data), label="net.s2c." + ev["api"], ghost=ghost)
                 self._done(ev)
             if act.delay > 0:
                 self.clock.labelled(act.delay, "srv.delayed_reply." + ev["api"], send)
